@@ -23,7 +23,8 @@ fn fasta_bytes(recs: &[(String, Vec<u8>)], wrap: usize, crlf: bool) -> Vec<u8> {
 fn fastq_bytes(recs: &[(String, Vec<u8>)]) -> Vec<u8> {
     let mut s = Vec::new();
     for (id, seq) in recs {
-        s.push(b'@'); s.extend_from_slice(id.as_bytes()); s.push(b'\n');
+        // Illumina / SRA style header: the id is the first word, a description follows
+        s.push(b'@'); s.extend_from_slice(id.as_bytes()); s.extend_from_slice(b" 1:N:0:ACGT length=7\n");
         s.extend_from_slice(seq); s.extend_from_slice(b"\n+\n");
         // legal Phred+33 quality characters include '@' (Q31) and '+' (Q10), also as the first character of the line
         for i in 0..seq.len() { s.push(b"@I+5@"[(i + seq.len()) % 5]); }
